@@ -427,3 +427,133 @@ func tailRecHelperAsLoop(c *Ctx, g *GCNF) *GCNF {
 	}
 	return out
 }
+
+// indexOfWalkForm — `list.Remove(list.IndexOf(x))` written out as a walk over the list's own iterator:
+//
+//	for it := list.Iterator(); it.Next(); { if it.Value() == x { list.Remove(it.Index()); return } }
+//
+// (exhausted without a match = IndexOf answered -1 = Remove(-1), a no-op). Where a path P ends by storing a fresh iterator of
+// list L and entering a loop of exactly the three shapes (exhausted → E; next, value != x → again; next, value == x →
+// Remove(L, it.index) → E') with E and E' the same exit and no other effects, P is rewritten to end with
+// `Remove(L, IndexOf(L, x))` and that exit. Anything else is left alone.
+func indexOfWalkForm(p *Prog, g *GCNF) *GCNF {
+	if g == nil || g.Undecided != "" {
+		return g
+	}
+	for _, entry := range g.GCs {
+		if entry.Exit.Op != "goto" || len(entry.Exit.Args) != 0 || len(entry.Effects) == 0 {
+			continue
+		}
+		last := entry.Effects[len(entry.Effects)-1]
+		if !(isStore(last) && last.Args[0].Op == "new" && last.Args[1].Op == "call" && strings.HasSuffix(last.Args[1].Leaf, ").Iterator") && len(last.Args[1].Args) == 2) {
+			continue
+		}
+		it, L := last.Args[0], last.Args[1].Args[1]
+		k, err := strconv.Atoi(entry.Exit.Leaf)
+		if err != nil || entry.From == k {
+			continue
+		}
+		var loop []*GC
+		entries := 0
+		for _, x := range g.GCs {
+			if x.From == k {
+				loop = append(loop, x)
+			}
+			if x.Exit.Op == "goto" && x.Exit.Leaf == entry.Exit.Leaf && x.From != k {
+				entries++
+			}
+		}
+		if len(loop) != 3 || entries != 1 {
+			continue
+		}
+		nextDo := func(x *GC) *Term {
+			if len(x.Effects) >= 1 && x.Effects[0].Op == "do" && strings.HasSuffix(x.Effects[0].Leaf, ").Next") && len(x.Effects[0].Args) == 1 && x.Effects[0].Args[0].String() == it.String() {
+				return x.Effects[0]
+			}
+			return nil
+		}
+		var exhausted, again, hit *GC
+		var key *Term
+		ok := true
+		for _, x := range loop {
+			nd := nextDo(x)
+			if nd == nil {
+				ok = false
+				break
+			}
+			stepped := 0
+			var eq, ne *Term
+			for _, a := range x.Guards {
+				y, pol := a, true
+				if y.Op == "!" {
+					y, pol = y.Args[0], false
+				}
+				switch {
+				case y.Op == "res" && len(y.Args) == 1 && y.Args[0].String() == nd.String():
+					if pol {
+						stepped = 1
+					} else {
+						stepped = -1
+					}
+				case a.Op == "==" && len(a.Args) == 2:
+					eq = a
+				case a.Op == "!=" && len(a.Args) == 2:
+					ne = a
+				default:
+					ok = false
+				}
+			}
+			valueOf := func(a *Term) *Term {
+				// one side reads the iterator's current value (it.element.value), the other is the key
+				for i := 0; i < 2; i++ {
+					if s := noEpoch(a.Args[i]); strings.Contains(s, "(fa:value (load (fa:element "+noEpoch(it)+"))") {
+						return a.Args[1-i]
+					}
+				}
+				return nil
+			}
+			switch {
+			case stepped == -1 && len(x.Effects) == 1 && len(x.Guards) == 1:
+				exhausted = x
+			case stepped == 1 && ne != nil && eq == nil && len(x.Effects) == 1 && x.Exit.Op == "goto" && x.Exit.Leaf == entry.Exit.Leaf:
+				if kk := valueOf(ne); kk != nil {
+					again, key = x, kk
+				} else {
+					ok = false
+				}
+			case stepped == 1 && eq != nil && ne == nil && len(x.Effects) == 2:
+				rm := x.Effects[1]
+				if kk := valueOf(eq); kk != nil && rm.Op == "do" && strings.HasSuffix(rm.Leaf, ").Remove") && len(rm.Args) == 2 && noEpoch(rm.Args[0]) == noEpoch(L) && noEpoch(rm.Args[1]) == "(load (fa:index "+noEpoch(it)+"))" {
+					hit = x
+					if key != nil && noEpoch(key) != noEpoch(kk) {
+						ok = false
+					}
+					key = kk
+				} else {
+					ok = false
+				}
+			default:
+				ok = false
+			}
+		}
+		if !ok || exhausted == nil || again == nil || hit == nil || key == nil || exhausted.Exit.String() != hit.Exit.String() || exhausted.Exit.Op == "goto" && exhausted.Exit.Leaf == entry.Exit.Leaf {
+			continue
+		}
+		idxOf := &Term{Op: "call", Leaf: strings.TrimSuffix(hit.Effects[1].Leaf, ").Remove") + ").IndexOf", Args: []*Term{leaf("@", "e0"), L, key}}
+		rm := &Term{Op: "do", Leaf: hit.Effects[1].Leaf, Args: []*Term{L, idxOf}}
+		out := &GCNF{Fn: g.Fn, NumPaths: g.NumPaths, Cuts: g.Cuts}
+		for _, x := range g.GCs {
+			switch {
+			case x == entry:
+				y := &GC{From: x.From, Guards: x.Guards, Pos: x.Pos, Exit: hit.Exit}
+				y.Effects = append(append([]*Term(nil), x.Effects[:len(x.Effects)-1]...), rm)
+				out.GCs = append(out.GCs, y)
+			case x.From == k:
+			default:
+				out.GCs = append(out.GCs, x)
+			}
+		}
+		return out
+	}
+	return g
+}
